@@ -32,10 +32,12 @@ Theorem C02_bound : forall cf c s o s1 x,
 Proof. exact redeem_bound. Qed.
 Print Assumptions C02_bound.
 
-(* OIDC token endpoint: presenting a used code is refused and revokes every token minted from it. *)
+(* OIDC token endpoint: presenting a used code is refused and revokes every token minted from it (as long as the
+   session the code belongs to is in the database: after SessionManager.remove_session the code does not resolve
+   at all, the parse step raises - see C03_removed_never_honoured). *)
 Theorem C02_oidc_replay_revokes : forall cf s cl id redir s1 x g t,
   c_oidc cf = true ->
-  find_tok id s = Some (g, t) -> t_cls t = Code -> t_used t <> 0%Z ->
+  find_tok id s = Some (g, t) -> g_removed g = false -> t_cls t = Code -> t_used t <> 0%Z ->
   step cf s (TokenParse cl (TRef id) redir) = (s1, x) ->
   x = OErr EInvalidGrant /\
   forall k tk, tget k s = Some tk -> t_grant tk = t_grant t -> t_based tk = Some id ->
